@@ -127,6 +127,9 @@ pub struct Dump {
     pub rank: HashMap<u64, usize>,
     /// per node: keys whose row copy and column copy differ
     pub clash_keys: Vec<Vec<String>>,
+    /// largest live relationship id / node id (holes in the id space show as max > count)
+    pub max_edge_id: u64,
+    pub max_node_id: u64,
     /// what the model's `St` has no place for: incoming adjacency (both tiers), the store's own
     /// node / relationship counters, relationship-type index sizes — compared verbatim where
     /// a store must be *unchanged*
@@ -301,7 +304,7 @@ pub fn dump_store_ordered(store: &GraphStore, tail: &[u64]) -> Dump {
         store.edge_count(),
         lidx.len()
     );
-    Dump { text, n_nodes: order.len(), n_edges: edges.len(), multi_version, node_labels, node_props, rank, clash_keys, aux, consistent }
+    Dump { text, n_nodes: order.len(), n_edges: edges.len(), multi_version, node_labels, node_props, rank, clash_keys, max_edge_id: edges.iter().map(|e| e.0).max().unwrap_or(0), max_node_id: order.iter().copied().max().unwrap_or(0), aux, consistent }
 }
 
 /// store text without the trailing `|<next>.<next>` counters and with the per-node history
